@@ -59,7 +59,9 @@ def cases(draw):
     nfiles = draw(st.sampled_from([0, 1, 1, 2, 3, 4]))
     names = draw(st.lists(st.sampled_from(["a.root", "b.root", "c.root", "file with space.root", "d.root", "é.root"]), min_size=nfiles, max_size=nfiles, unique=True))
     dirs = [0] * nfiles
-    layout = draw(st.sampled_from(["same", "same", "same", "two-dirs", "missing"]))
+    # links: every input file is a symbolic link, in one directory, to a file stored elsewhere (one or two storage directories)
+    layout = draw(st.sampled_from(["same", "same", "same", "two-dirs", "missing", "links"]))
+    link_targets = [draw(st.integers(0, 1)) for _ in range(nfiles)] if layout == "links" else None
     if layout == "two-dirs" and nfiles >= 2:
         dirs[draw(st.integers(1, nfiles - 1))] = 1
     missing = []
@@ -80,7 +82,7 @@ def cases(draw):
     if draw(st.integers(0, 2)) == 0:
         second = {"md": draw(st.lists(st.sampled_from(["md/second:9", "other/img:2"]), min_size=0, max_size=1)),
                   "outcome": draw(st.sampled_from(["success", "success", "fail-before"])), "payload": draw(st.binary(min_size=1, max_size=12)).decode("latin-1")}
-    return {"second": second, "backend": backend, "names": names, "dirs": dirs, "missing": missing, "form": form, "image": image, "tag": tag, "default_image": use_default_image, "md": md,
+    return {"second": second, "backend": backend, "names": names, "dirs": dirs, "missing": missing, "link_targets": link_targets, "form": form, "image": image, "tag": tag, "default_image": use_default_image, "md": md,
             "outdir": outdir, "outcome": outcome, "chunks": [(k, d.decode("latin-1")) for k, d in chunks], "fail_after": fail_after, "payload": payload.decode("latin-1")}
 
 
@@ -103,7 +105,13 @@ def run_case(c: dict) -> dict:
         paths = []
         for i, (n, d) in enumerate(zip(c["names"], c["dirs"])):
             p = os.path.join(ddirs[d], n)
-            if i not in c["missing"]:
+            if c.get("link_targets"):
+                store = os.path.join(scratch, f"store{c['link_targets'][i]}")
+                os.makedirs(store, exist_ok=True)
+                target = os.path.join(store, f"stored_{i}.root")
+                open(target, "wb").write(b"data")
+                os.symlink(target, p)
+            elif i not in c["missing"]:
                 open(p, "wb").write(b"data")
             paths.append(p)
         form = c["form"]
@@ -272,7 +280,7 @@ def worker(payload):
         obs = run_case(c)
         res = judge(c, obs)
         nt = len(c["names"]) >= 2 or bool(c["md"]) or c["outcome"] != "success" or res == "input-error"
-        labels = (["second-query-on-same-dataset"] if c.get("second") else []) + [f"backend={c['backend']}", "outcome=" + c["outcome"], "result=" + res, f"files={len(c['names'])}", f"metadata={len(c['md'])}", "form=" + c["form"],
+        labels = (["second-query-on-same-dataset"] if c.get("second") else []) + [f"backend={c['backend']}", "outcome=" + c["outcome"], "result=" + res, f"files={len(c['names'])}", f"metadata={len(c['md'])}", "form=" + c["form"], "inputs=" + ("symlinks" if c.get("link_targets") else "files"),
                   "outdir=" + ("given" if c["outdir"] else "default")]
         stats.case(jdump(c), nt or bool(c.get("second")), labels, {k: c[k] for k in ("backend", "names", "dirs", "missing", "form", "md", "outcome", "fail_after", "second")})
 
